@@ -75,6 +75,9 @@ def run(chk: core.Check):
     # the plan level: the real ExecutionPlan.execute over scripted phases (flags, escaping KeyboardInterrupt) vs ModelE_C11.eplan
     chk.stages["execution_plan"] = plan_stage(chk, (120 if quick else 3000) * (3 if chk.broken else 1))
 
+    # the probing phase under every requests error class and odd API answers vs ModelE_C11.probing_phase
+    chk.stages["probing_faults"] = probing_stage(chk, quick)
+
     # free multi-phase runs with a stop request at a random event index
     n_free = (8 if quick else 80) * (10 if chk.broken else 1)
     bad = 0
@@ -214,6 +217,101 @@ def stateful_stage(chk, n) -> dict:
         if d is not None:
             chk.fail(f"event stream not well formed (stateful forced schedule): {d}", canon)
     return {"runs": len(cases), "problems": bad}
+
+
+def _all_subclasses(cls):
+    out = []
+    for sub in cls.__subclasses__():
+        out.append(sub)
+        out.extend(_all_subclasses(sub))
+    return out
+
+
+def probing_stage(chk, quick: bool) -> dict:
+    """Engine runs (probing + fuzzing, one operation) in which the probe request meets: every subclass of requests.RequestException
+    (raised by Session.send for the probe only), KeyboardInterrupt, and real odd answers of the API (redirect loop, broken gzip,
+    redirect to another scheme, 400, 500).  The stream must be well formed, the PROBING phase closed once, with the status
+    ModelE_C11.probing_phase says."""
+    from unittest import mock
+
+    import requests
+    import urllib3
+
+    rng = chk.rng
+    classes = sorted({c for c in _all_subclasses(requests.RequestException)}, key=lambda c: c.__name__)
+    behaviours = [("PbRequestError", c) for c in classes if c is not requests.exceptions.MissingSchema]
+    behaviours += [("PbMissingSchema", requests.exceptions.MissingSchema), ("PbInterrupt", KeyboardInterrupt)]
+    if quick:
+        keep = [b for b in behaviours if b[1].__name__ in ("TooManyRedirects", "ContentDecodingError", "InvalidSchema", "ConnectionError", "ReadTimeout",
+                                                           "ChunkedEncodingError", "SSLError", "InvalidHeader", "MissingSchema", "KeyboardInterrupt")]
+        rest = [b for b in behaviours if b not in keep]
+        rng.shuffle(rest)
+        behaviours = keep + rest[:4]
+    real_send = requests.Session.send
+    exprs, obs = [], []
+
+    def run_one(kind, what, responder=None, patch_exc=None):
+        def send(self, request, **kw):
+            if patch_exc is not None and "X-Schemathesis-Probe" in request.headers:
+                raise patch_exc("injected on the probe request") if patch_exc is not KeyboardInterrupt else KeyboardInterrupt()
+            return real_send(self, request, **kw)
+
+        with mock.patch.object(requests.Session, "send", send):
+            try:
+                evs, _ = run_engine(U.schema_with_ops(1), responder or U.make_responder(["ok"]), phases=["probing", "fuzzing"], workers=1, max_examples=1, seed=1)
+                err = None
+            except BaseException as exc:  # the event stream itself raised: no EngineFinished
+                evs, err = [], f"{type(exc).__name__}: {exc}"
+        return evs, err
+
+    def judge(kind, what, evs, err, model_expr):
+        chk.seen({"probing": what}, True)
+        if err is not None:
+            chk.fail(f"probing: the event stream raised {err} - the phase was never closed and no EngineFinished was emitted", {"probe_meets": what})
+            return
+        d = U.stream_wf(evs, kind == "PbInterrupt")
+        if d is not None:
+            chk.fail(f"probing: event stream not well formed: {d}", {"probe_meets": what})
+        st = [e.status.name for e in evs if event_kind(e) == "PhaseFinished" and e.phase.name.name == "PROBING"]
+        exprs.append(model_expr)
+        obs.append((what, st))
+
+    for kind, cls in behaviours:
+        evs, err = run_one(kind, cls.__name__, patch_exc=cls)
+        judge(kind, cls.__name__, evs, err, f"(e_ki (probing_phase {kind}), e_status (probing_phase {kind}))")
+    # real answers
+    import gzip as _gzip
+
+    def loop(item):
+        return 302, [("Location", item["target"].rstrip("/") + "/x/")], b""
+
+    def bad_gzip(item):
+        return 200, [("Content-Encoding", "gzip"), ("Content-Type", "application/json")], b"not gzip at all"
+
+    def to_ftp(item):
+        return 302, [("Location", "ftp://127.0.0.1/x")], b""
+
+    def probe_only(beh):
+        def responder(item):
+            hdrs = {k.lower() for k, _ in item["headers"]}
+            if "x-schemathesis-probe" in hdrs:
+                return beh(item)
+            return U.make_responder(["ok"])(item)
+        return responder
+
+    for name, beh, kind in [("redirect_loop", loop, "PbRequestError"), ("corrupted_gzip", bad_gzip, "PbRequestError"), ("redirect_to_ftp", to_ftp, "PbRequestError"),
+                            ("status_400", lambda item: (400, [], b""), "(PbResponse 400)"), ("status_500", lambda item: (500, [], b""), "(PbResponse 500)")]:
+        evs, err = run_one(kind, name, responder=probe_only(beh))
+        judge(kind, name, evs, err, f"(e_ki (probing_phase {kind}), e_status (probing_phase {kind}))")
+    model = core.coq_eval(["C11.Model_C11", "C11.ModelE_C11"], exprs) if exprs else []
+    bad = 0
+    for (what, st), m in zip(obs, model):
+        ki, mstatus = str(m[0]), str(m[1])
+        expected = ["INTERRUPTED"] if ki == "KiBeforeFinish" else [mstatus]
+        if st != expected:
+            bad += 1
+            chk.disagree("probing phase: PhaseFinished status (real engine vs ModelE_C11.probing_phase)", {"probe_meets": what}, st, expected)
+    return {"behaviours": len(obs), "request_exception_classes": len(classes), "disagreements": bad}
 
 
 def plan_case(rng) -> dict:
